@@ -74,7 +74,24 @@ def showSpec : Spec → String
 def showSpecs (l : List Spec) : String :=
   "(" ++ ",".intercalate (l.map showSpec) ++ ")"
 
-def showCall (c : Call) : String := s!"{showNats c.pos}/{showPairs c.kws}"
+/-- keyword arguments / `**kw` contents are printed sorted by name: the order in which a call
+    spells its keywords never matters for binding -/
+def insPair (p : Nat × Nat) : List (Nat × Nat) → List (Nat × Nat)
+  | [] => [p]
+  | q :: r => if p.1 ≤ q.1 then p :: q :: r else q :: insPair p r
+
+def sortPairs (l : List (Nat × Nat)) : List (Nat × Nat) := l.foldr insPair []
+
+def showCall (c : Call) : String := s!"{showNats c.pos}/{showPairs (sortPairs c.kws)}"
+
+/-- the `k=v` items of an invocation, sorted in place -/
+def sortKwSpecs (l : List Spec) : List Spec :=
+  let kws := sortPairs (l.filterMap fun s => match s with | .kw k v => some (k, v) | _ => none)
+  let rec go : List Spec → List (Nat × Nat) → List Spec
+    | [], _ => []
+    | .kw _ _ :: r, (k, v) :: ks => .kw k v :: go r ks
+    | s :: r, ks => s :: go r ks
+  go l kws
 
 def showBound (b : Bound) : String :=
   let st := match b.star with
@@ -82,7 +99,7 @@ def showBound (b : Bound) : String :=
     | some l => showNats l
   let ds := match b.dstar with
     | none => "~"
-    | some l => showPairs l
+    | some l => showPairs (sortPairs l)
   s!"{showPairs b.pos}|{st}|{showPairs b.kwo}|{ds}"
 
 def outcome (f w : Func) (plain : Bool) (c : Call) : String :=
@@ -174,7 +191,7 @@ def handleB (toks : List String) : String :=
       | .error e => s!"err {showErr e}"
       | .ok fb =>
         let dd := ",".intercalate ((fb.argNames false).map fun n => s!"{n}:{showOpt (get? n fb.defaultsDict)}")
-        let hdr := s!"N {showNats (fb.argNames false)} ; Q {showNats (fb.argNames true)} ; DD {dd} ; D {showSpecs fb.sigSpecs} ; I {showSpecs fb.invocationSpecs}"
+        let hdr := s!"N {showNats (fb.argNames false)} ; Q {showNats (fb.argNames true)} ; DD {dd} ; D {showSpecs fb.sigSpecs} ; I {showSpecs (sortKwSpecs fb.invocationSpecs)}"
         match fb.getFunc 2 none fb.invocationSpecs with
         | .error e => s!"{hdr} ; err {showErr e}"
         | .ok w =>
@@ -207,7 +224,7 @@ def handle (line : String) : String :=
         let fb := FB.fromFunc w
         let outs := calls.map (outcomeStack f (w :: ws) plain)
         let asyS := if w.isAsync then "1" else "0"
-        s!"S {showSig (sigOf w)} ; M {w.name} {showOpt w.doc} {showOpt w.module} {showOpt w.wrapped} {asyS} ; A {anns} r:{showOpt w.retAnn} ; D {showSpecs fb.sigSpecs} ; I {showSpecs w.body} ; {",".intercalate outs}"
+        s!"S {showSig (sigOf w)} ; M {w.name} {showOpt w.doc} {showOpt w.module} {showOpt w.wrapped} {asyS} ; A {anns} r:{showOpt w.retAnn} ; D {showSpecs fb.sigSpecs} ; I {showSpecs (sortKwSpecs w.body)} ; {",".intercalate outs}"
     | _, _, _, _, _, _, _, _, _, _, _, _, _, _, _ => "bad-op"
   | _ => "bad-op"
 
